@@ -432,6 +432,16 @@ class TailInterp:
             return t, f
         if isinstance(test, ast.Compare) and len(test.ops) == 1 and \
                 isinstance(test.ops[0], ast.Eq) and \
+                isinstance(test.left, ast.Name) and \
+                env.get(test.left.id) is not None and \
+                env[test.left.id].kind == 'tagof' and \
+                const_str(test.comparators[0]) is not None:
+            # name = p[0] ... name == 'IRETURNVALUE'
+            t[env[test.left.id].items[0]] = [('tag', const_str(
+                test.comparators[0]))]
+            return t, f
+        if isinstance(test, ast.Compare) and len(test.ops) == 1 and \
+                isinstance(test.ops[0], ast.Eq) and \
                 isinstance(test.left, ast.Subscript) and \
                 isinstance(test.left.slice, ast.Constant) and \
                 test.left.slice.value == 0 and \
@@ -705,6 +715,15 @@ class TailInterp:
             return env, False
         if isinstance(st, ast.Assign):
             av = self.ev(st.value, env, func)
+            v = st.value
+            if av is None and isinstance(v, ast.Subscript) and \
+                    isinstance(v.value, ast.Name) and \
+                    isinstance(v.slice, ast.Constant) and \
+                    v.slice.value == 0 and \
+                    env.get(v.value.id) is not None and \
+                    env[v.value.id].kind == 'rchild':
+                # the element name of a response child kept in a local
+                av = AV('tagof', items=[v.value.id])
             env = dict(env)
             for t in st.targets:
                 if isinstance(t, ast.Name):
